@@ -108,14 +108,14 @@ func runOnce(s Scenario, f Fault) (res runResult, infra error) {
 			return res, herr
 		}
 		w := &vh.WrapHandler{Inner: rh}
-		if f.Where == "handler" {
+		if f.Where == "handler" && f.Index == 0 {
 			w.PanicIn = f.Kind
 		}
 		h = w
 	} else {
 		fh := &vh.FakeHandler{ID: "h0", Accept: true, Log: hlog, Agent: agent.NewClient(conn), NKeys: s.NKeys, NReqs: s.NReqs,
 			Refresh: func(k *agent.Key) bool { return strings.Contains(k.Comment, "verif.h0-stale") }}
-		if f.Where == "handler" {
+		if f.Where == "handler" && f.Index == 0 {
 			fh.PanicIn = f.Kind
 		}
 		h = fh
@@ -125,6 +125,10 @@ func runOnce(s Scenario, f Fault) (res runResult, infra error) {
 		rej := &vh.FakeHandler{ID: "rej", Accept: false, Log: hlog}
 		if f.Where == "handler" && f.Kind == "name" {
 			rej.PanicIn = "name"
+		}
+		if f.Where == "handler" && f.Index == 1 {
+			// the panic is raised by the handler in front (which would otherwise reject), not by the one that authenticates
+			rej.PanicIn = f.Kind
 		}
 		handlers = []gensign.Handler{rej, h}
 	}
@@ -242,6 +246,9 @@ func exec(s Scenario) (vh.Outcome, error) {
 	for _, k := range []string{"name", "authenticate", "generate", "csrs", "addcerts"} {
 		faults = append(faults, Fault{"handler", 0, k})
 	}
+	if s.RejectFirst {
+		faults = append(faults, Fault{"handler", 1, "authenticate"})
+	}
 	effective := 0
 	for _, f := range faults {
 		res, infra := runOnce(s, f)
@@ -311,7 +318,7 @@ func exec(s Scenario) (vh.Outcome, error) {
 	return out, nil
 }
 
-const rule = "scenarios: the real regular handler, or a harness handler producing 1..3 agent keys x 1..3 requests through the repository's AgentKey, CA returning 1..3 certificates per request (validity window as requested / without expiry / until 2^63 s / stamped by a clock 90 s ahead), 0..2 stale labelled certificates in the agent, optionally a rejecting handler in front, run under context.Background, a cancellable context (what cmd/gensign passes) or a deadline context (each case is journaled first: a fault that kills the process instead of coming back as an error is reported with its scenario). Per scenario a fault-free run fixes the number of agent operations n and CA calls m; then EVERY (operation index 0..n-1) x {failure reply, connection closed}, every CA call x {error, panic, error handed back together with certificates, certificates issued for another key} and a panic in each of Name / Authenticate / Generate / CSRs / AddCertsToAgent is executed in a fresh world (exhaustive per scenario; scenarios random). Oracle: challenge fault => AllAuthFailed; agent fault before the first CA call => a typed generation error; CA error => SignerSignErr and no further CA call; list / remove / add-certificate fault => AgentOpCertErr; any panic => Panic; always a *gensign.Error, the process survives; fault-free: nil, CA calls = all requests in order, every returned certificate in the agent; always: certificates added are a subset of those the CA returned. Non-trivial: at least one injected fault was reached and judged."
+const rule = "scenarios: the real regular handler, or a harness handler producing 1..3 agent keys x 1..3 requests through the repository's AgentKey, CA returning 1..3 certificates per request (validity window as requested / without expiry / until 2^63 s / stamped by a clock 90 s ahead), 0..2 stale labelled certificates in the agent, optionally a rejecting handler in front, run under context.Background, a cancellable context (what cmd/gensign passes) or a deadline context (each case is journaled first: a fault that kills the process instead of coming back as an error is reported with its scenario). Per scenario a fault-free run fixes the number of agent operations n and CA calls m; then EVERY (operation index 0..n-1) x {failure reply, connection closed}, every CA call x {error, panic, error handed back together with certificates, certificates issued for another key} and a panic in each of Name / Authenticate / Generate / CSRs / AddCertsToAgent of the authenticating handler, plus a panic in Authenticate of the handler in front of it, is executed in a fresh world (exhaustive per scenario; scenarios random). Oracle: challenge fault => AllAuthFailed; agent fault before the first CA call => a typed generation error; CA error => SignerSignErr and no further CA call; list / remove / add-certificate fault => AgentOpCertErr; any panic => Panic; always a *gensign.Error, the process survives; fault-free: nil, CA calls = all requests in order, every returned certificate in the agent; always: certificates added are a subset of those the CA returned. Non-trivial: at least one injected fault was reached and judged."
 
 func TestC04Faults(t *testing.T) {
 	vh.Run(t, vh.Spec[Scenario]{Property: "C04", Name: "TestC04Faults", Rule: rule, Journal: true,
